@@ -1,7 +1,9 @@
 //! hcv: conformance harness binding the TLA+ specifications in /verif/spec to Heathcliff.
+mod c08;
 mod he;
 mod project;
 mod psets;
+mod ser;
 
 use serde_json::{json, Value};
 use std::io::{BufRead, Write};
@@ -51,6 +53,9 @@ fn main() {
             }
             out_line(&json!({"done": true}));
         }
+        "c08" => c08::main(&args[2..]),
+        "ser-layout" => ser::layout_events(&args[2], args[3].parse().unwrap()),
+        "ser-faults" => ser::fault_replay(&args[2], args[3].parse().unwrap(), &args[4]),
         c => {
             eprintln!("unknown command {}", c);
             std::process::exit(2);
